@@ -298,7 +298,7 @@ def gen_sched(tier, rng):
         if _abnormal[0]:
           return
   # seeded random walks over bigger configurations
-  n = 400 if tier == "quick" else 4000
+  n = 400 if tier == "quick" else 3000
   for _ in range(n):
     np_ = rng.choice([1, 2, 2, 3, 3])
     size, channels = rng.choice([(1, 1), (2, 1), (3, 1), (2, 2)])
@@ -476,14 +476,14 @@ def multi_configs(tier):
 def gen_multi(tier, rng):
   _abnormal[0] = False
   for waits, script, bound, tag in multi_configs(tier):
-    scheds, complete = explore(waits, script, bound, 400 if tier == "quick" else 3000)
+    scheds, complete = explore(waits, script, bound, 400 if tier == "quick" else 600)
     if tier == "quick" and len(scheds) > 25:
       scheds = [scheds[0]] + rng.sample(scheds[1:], 24)
     for sc in scheds:
       yield {"waits": waits, "script": script, "sched": sc, "tags": [tag, "multi"]}
     if _abnormal[0]:
       return
-  for _ in range(40 if tier == "quick" else 800):
+  for _ in range(40 if tier == "quick" else 400):
     nm = rng.choice([2, 2, 3])
     waits = [rng.random() < 0.5 for _m in range(nm)]
     script = []
